@@ -186,6 +186,27 @@ func (m *C05) OnStep(w *ops.World, st *ops.Step) {
 				m.S.Violate("value-entry-for-non-opted-operator", "", m.Hist, st.I, "operator %s has a value entry for AVS %s but is not opted in", op, addr)
 			}
 		}
+		// every operator that is opted in must have been valued: an opted-in operator whose pools are worth something
+		// and that has no value entry at all was skipped by the refresh
+		for k, info := range pre.Op.Opted {
+			p := strings.SplitN(k, "/", 2)
+			if len(p) != 2 || p[1] != addr || info.OptedOutHeight != operatortypes.DefaultOptedOutHeight {
+				continue
+			}
+			if _, has := post.Op.USD[addr+"/"+p[0]]; has {
+				continue
+			}
+			m.S.Eval("opted-in-operator-has-entry")
+			total := new(big.Int)
+			for _, a := range avs.AssetIDs {
+				if pool, ok := pre.Ledger.Operator[p[0]+"/"+a]; ok {
+					total.Add(total, usdFloor18(pool.TotalAmount.BigInt(), prices[a].v, decs[a], prices[a].dec))
+				}
+			}
+			if total.Sign() > 0 {
+				m.S.Violate("operator-usd-value", "missing-entry", m.Hist, st.I, "AVS %s (epoch %s #%d): operator %s is opted in, its pools are worth %s, but it has no value entry after the epoch end", addr, avs.EpochIdentifier, n, p[0], sdkmath.LegacyNewDecFromBigIntWithPrec(total, 18))
+			}
+		}
 		m.S.Eval("avs-value")
 		got, ok := post.Op.AVSUSD[addr]
 		if !ok {
